@@ -207,15 +207,23 @@ def record_run(params: dict, *, tid: int, workload=None, exact=None, mode="obs",
     SCHEDULING_ALGOS[key] = sched
     p2 = dict(params)
     p2["scheduler_algo"] = key
-    inner = workload if workload is not None else WorkloadGenerator(**full)
     stats, exc = None, None
+    import eudoxia.simulator as _simmod
+    real_gen = _simmod.WorkloadGenerator
     try:
-        stats = run_simulator(p2, workload=RecWorkload(inner))
+        if workload is not None:
+            stats = run_simulator(p2, workload=RecWorkload(workload))
+        else:
+            # no workload given: run_simulator builds the generator itself from the parameter set - that path is the one under test, so the
+            # recorder is slipped around whatever run_simulator constructs (the name it looks up in its module), not around one built here
+            _simmod.WorkloadGenerator = lambda *a, **k: RecWorkload(real_gen(*a, **k))
+            stats = run_simulator(p2)
     except BaseException as e:  # noqa: BLE001
         exc = e
         if not events or events[-1]["ev"] != "raise":
             events.append({"ev": "raise", "tid": tid, "t": st["t"], "exc": type(e).__name__, "msg": str(e)[:120], "where": "sim"})
     finally:
+        _simmod.WorkloadGenerator = real_gen
         INIT_ALGOS.pop(key, None)
         SCHEDULING_ALGOS.pop(key, None)
     if not events or events[0]["ev"] != "hdr":
